@@ -30,7 +30,8 @@ OUTSIDE["C16"] = [
     "2-entry palette, the 256-entry palette read of parse_direct_content and the public encode_blp/parse_blp entry points are not executed",
     "headers whose flag flavour or locator kind does not match the version tag (BLP0 with an internal locator, BLP2 with old flags), "
     "alpha depths outside the documented sets for BLP0/BLP1 (the parser normalises them to 0), mipmap tables whose offsets are not ascending "
-    "(the encoder sorts the table but writes levels in level order), declared level size 0 (the encoder skips the level silently)",
+    "(the encoder sorts the table but writes levels in level order), declared level size 0 (the encoder skips the level silently); the encoder's "
+    "locator check is decided for 6 concrete (offset, size) pairs only",
     "offset + size overflowing 32 bits in parser::bounds::check_bounds / parse_dxtn (hostile input, belongs to C05): panics in dev and release",
     "file-system entry points save_blp / load_blp and external mipmap file naming",
 ]
@@ -143,11 +144,12 @@ H("C16", "blp", _BE, "quick", "C16.c BLP0 palettised level goes to an external f
 H("C16", "blp", _BE, "quick", "C16.d encoder's locator check (no mipmaps): offset below the bytes already written -> InvalidOffset; declared size != encoded level -> "
   "InvalidMipmapSize; otherwise the level lands exactly at `offset` behind zero padding, ends the file, palette word little-endian before it, earlier bytes untouched; "
   "entries of absent levels are ignored",
-  ["c16d_locator_offset_below_filled_rejected", "c16d_locator_exact_offset", "c16d_locator_padded_offset"], ["encode::{encode_raw1,encode_raw,encode_raw1_image}"],
-  "offset symbolic in 0..8 (below the filled length) resp. concrete 8 (exact) and 11 (3 padding bytes); declared size symbolic (u32); the 15 other offset/size "
-  "entries, 3 level bytes, 1 palette word and the 4 preceding bytes symbolic",
-  "one level of 3 bytes (2x1, alpha 4), 4 bytes + 1 palette word already written; a symbolic padding length does not finish",
-  assumes=["declared size != 0 (a zero size makes the encoder skip the level without error; no converted texture has it)"], stubs=[FMT_BLP])
+  ["c16d_locator_offset_below_filled_rejected", "c16d_locator_wrong_size_rejected", "c16d_locator_consistent_level_placed"],
+  ["encode::{encode_raw1,encode_raw,encode_raw1_image}"],
+  "(offset, declared size) concrete: (7,3) (0,3) below the 8 bytes already written; (8,2) (11,4) wrong size; (8,3) exact and (11,3) with 3 padding bytes; "
+  "the 15 other offset/size entries, 3 level bytes, 1 palette word and the 4 preceding bytes symbolic",
+  "one level of 3 bytes (2x1, alpha 4), 4 bytes + 1 palette word already written; symbolic offset/size do not finish (symbolic-length Vec in the encoder)",
+  stubs=[FMT_BLP])
 
 # ------------------------------------------------------------------------------- C16.e complete mipmap chains (log2 model)
 H("C16", "blp", _BE, "quick", "C16.e raw BGRA with the complete chain (2 levels): levels are stored back to back in level order without overlap, the last one ends the file, "
